@@ -466,7 +466,7 @@ Section Write.
     Corollary get_after_group_replay st d groups dbseq hs k strict :
       wfb st -> bs_mem st = Some d -> uniq_in (all_entries (absS st)) ->
       (forall x, In x (all_entries (absS st)) -> e_seq x <= dbseq) ->
-      Forall rec_wf (concat groups) -> dbseq + N.of_nat (length (concat groups)) <= keyMaxSeq p -> heights_okl hs ->
+      Forall rec_wf (concat groups) -> dbseq + N.of_nat (length (concat groups)) < keyMaxSeq p -> heights_okl hs ->
       N.of_nat (length (concat groups)) < 2 ^ 32 -> lenN (enc_recs p (concat groups)) < 2 ^ 59 -> wf_bytes k ->
       exists record d' hs' prev,
         write_group p ic mp dbseq (group_of p groups) d hs = WgOk record d' hs' (dbseq + N.of_nat (length (concat groups))) /\
@@ -475,7 +475,8 @@ Section Write.
         bapi (getb st k dbseq) = Some prev /\
         bapi (getb (with_mem st d') k (dbseq + N.of_nat (length (concat groups)))) = Some (recs_get p c k (concat groups) prev).
     Proof.
-      intros W Hd Hu Hfresh Hw Hs Hh Hn Hl Wk.
+      intros W Hd Hu Hfresh Hw Hs0 Hh Hn Hl Wk.
+      assert (Hs : dbseq + N.of_nat (length (concat groups)) <= keyMaxSeq p) by lia.
       assert (Hl' : lenN (enc_recs p (concat groups)) < 2 ^ 63).
       { change (2 ^ 59) with 576460752303423488 in Hl. change (2 ^ 63) with 9223372036854775808. lia. }
       destruct (get_after_group_write st d groups dbseq hs k W Hd Hu Hfresh Hw Hs Hh Hl' Wk)
@@ -485,7 +486,7 @@ Section Write.
       { destruct pok as (_ & _ & _ & _ & Hm & _). rewrite Hm. change (2 ^ 56) with 72057594037927936. lia. }
       assert (Hok : Forall (rec_ok p) (concat groups)) by (eapply Forall_impl; [|exact Hw]; apply rec_wf_ok).
       rewrite (write_then_recover p pok 12 eq_refl ic mp groups dbseq strict d hs record d' hs' _ Hok
-                 ltac:(change (2 ^ 64) with 18446744073709551616; lia) Hn Hl E).
+                 ltac:(change (2 ^ 64) with 18446744073709551616; lia) Hn Hl ltac:(lia) E).
       f_equal. apply u64_small. change (2 ^ 64) with 18446744073709551616. lia.
     Qed.
   End Bytes.
